@@ -205,6 +205,10 @@ def check_block_table(ctx, P, MV):
         want = 1 if (flags == (B | W) and tl == 0 and 0 <= fd < MAXFD) else 0
         cases += 1
         if got is None:
+            sbf = P.fn("should_block")
+            a0 = env.base(sbf, [(is_param_load(sbf, sbf.params[0]["name"]), fd)])
+            if not reachable_returns(sbf, a0) and want == 0:
+                continue  # debug configuration: assert(fd >= 0) aborts instead of returning - it does not report 'block'
             raise AnalysisBroken("should_block: result not a unique constant for flags=%d tl=%d fd=%d" % (flags, tl, fd))
         if got != want:
             bad = bad or "flags=%s thread_locked=%d fd=%d: should_block returns %d, specification says %d" % (
